@@ -126,6 +126,15 @@ def base3(a, b, c=3):
 
 
 part = functools.partial(base3, 10)
+part2 = functools.partial(base3, 20)
+
+
+def other3(a, b, c=3):
+    COUNT["part3"] += 1
+    return ("part3", [("a", _c(a)), ("b", _c(b)), ("c", _c(c))])
+
+
+part3 = functools.partial(other3, 10)
 
 
 async def acoro(a, b=5):
@@ -213,17 +222,22 @@ def gen_call(rng, fn, pool):
 def gen_history(rng, n_ops=14):
     funcs = gen_universe(rng, rng.choice([1, 2, 3]))
     pool = rng.sample(range(len(VALUES)), rng.randint(2, 5))
-    specials = ["meth1", "meth2", "part", "acoro"]
+    specials = ["meth1", "meth2", "part", "acoro", "part", "part2", "part3"]
+    p_special = 0.12
+    if rng.random() < 0.12:
+        # histories about callables that share one place in the store (partials; the two bound methods)
+        p_special = 0.8; specials = rng.choice([["part", "part2", "part3"], ["part", "part2"], ["meth1", "meth2", "part", "part3"]])
+        pool = pool[:2]
     ops = []
     calls = []
     for _ in range(n_ops):
         r = rng.random()
         if r < 0.62:
-            if rng.random() < 0.12:
+            if rng.random() < p_special:
                 sp = rng.choice(specials)
                 c = {"fn": sp, "args": [rng.randrange(len(pool))] + ([rng.randrange(len(pool))] if rng.random() < 0.4 else []),
                      "kwargs": {}}
-                if sp == "part":
+                if sp.startswith("part"):
                     c["args"] = [rng.randrange(len(pool))]; c["kwargs"] = {"c": rng.randrange(len(pool))} if rng.random() < 0.4 else {}
             else:
                 fn = rng.choice(funcs)
@@ -387,7 +401,7 @@ def session(root, hist, start, t0, compress):
                 c = op[1]
                 args = [copy.deepcopy(vals[k]) for k in c["args"]]
                 kwargs = {k: copy.deepcopy(vals[v]) for k, v in c["kwargs"].items()}
-                cname = "meth" if c["fn"].startswith("meth") else c["fn"]
+                cname = "meth" if c["fn"].startswith("meth") else {"part2": "part"}.get(c["fn"], c["fn"])
                 n0 = umod.COUNT[cname]
                 f = get(c["fn"], op[0] == "callcb")
                 if op[0] == "check":
@@ -445,6 +459,7 @@ def run_history(hist):
         vals = _values(hist["pool"])
         ops = hist["ops"]
         live = {}            # key -> time stored
+        store_partial = [None]
         t = 1.7e9
         compress = False
         i = 0
@@ -472,6 +487,15 @@ def run_history(hist):
                     stats["evictions"] += 1
                     continue
                 c = op[1]
+                if c["fn"] in ("part", "part2", "part3"):
+                    # functools.partial objects have no name: all of them share one place in the store, and the stored
+                    # "source" (wrapped function + bound arguments) tells them apart -- using another partial is a
+                    # source change that invalidates the entries of the previous one
+                    if store_partial[0] != c["fn"]:
+                        for k in [k for k in live if k[0] in ("part", "part2", "part3") and k[0] != c["fn"]]:
+                            del live[k]
+                        stats["partial_switches"] += 1
+                    store_partial[0] = c["fn"]
                 want = plain_value(umod, vals, c)
                 key = (c["fn"], repr(want))        # the value spells out every non-ignored bound argument, type-aware
                 is_live = key in live and (op[0] != "callcb" or tcur - live[key] < 100)
